@@ -1,7 +1,7 @@
 #!/bin/bash
-# usage: seed_confirm.sh Cnn  — confirm an independently written breaking change found in /tmp/wt-Cnn + /tmp/out-Cnn:
-# builds, unchanged suite passes with it, demonstration fails with it and passes without it; then copies it to /verif/seeded/Cnn/.
-id=$1; wt=/tmp/wt-$id; out=/tmp/out-$id
+# usage: seed_confirm.sh Cnn [wave]  — confirm an independently written breaking change found in /tmp/wt<wave>-Cnn + /tmp/out<wave>-Cnn:
+# builds, unchanged suite passes with it, demonstration fails with it and passes without it; then copies it to /verif/seeded/Cnn[-wave]/.
+id=$1; wave=${2:-}; wt=/tmp/wt$wave-$id; out=/tmp/out$wave-$id; dest=$id; [ -n "$wave" ] && dest=$id-$wave
 export GOFLAGS=-mod=mod GOPROXY=off
 cd $wt || exit 2
 demos=$(git status --porcelain | grep '^??' | awk '{print $2}')
@@ -25,8 +25,8 @@ if [ -n "$pkgs" ]; then
 else
   echo "demo is not a go test: see README (not auto-run)" >> $log
 fi
-mkdir -p /verif/seeded/$id/demo
-cp /tmp/seed-$id.patch /verif/seeded/$id/patch.diff
-for f in $demos; do mkdir -p /verif/seeded/$id/demo/$(dirname $f); cp -r $f /verif/seeded/$id/demo/$f; done
-cp $out/README.md /verif/seeded/$id/README.md 2>/dev/null
+mkdir -p /verif/seeded/$dest/demo
+cp /tmp/seed-$id.patch /verif/seeded/$dest/patch.diff
+for f in $demos; do mkdir -p /verif/seeded/$dest/demo/$(dirname $f); cp -r $f /verif/seeded/$dest/demo/$f; done
+cp $out/README.md /verif/seeded/$dest/README.md 2>/dev/null
 cat $log
